@@ -13,7 +13,7 @@ claimed={c['property_id']:c for c in manifest.get('checks',manifest.get('propert
 matrix={}
 mp=V+'/seeded/MATRIX.txt'
 if os.path.exists(mp):
-    for l in open(mp):
+    for l in open(mp, errors="replace"):
         m=re.match(r'(C\d+-\d+): property=(C\d+) rc=(\d+) reports=(\d+)\s+(?:VIOLATION|UNDECIDED)?\s*(\S+): \[([^\]]+)\] (\S+)',l)
         if m: matrix[m.group(1)]=dict(rc=m.group(3),n=m.group(4),where=m.group(5),rule=m.group(6),key=m.group(7))
         else:
